@@ -42,7 +42,10 @@ IsNew(e) == e.op \in {"New", "NewFilled", "NewJagged"}
 RECURSIVE Join(_)
 Join(q) == IF q = <<>> THEN "" ELSE IF Len(q) = 1 THEN q[1] ELSE q[1] \o " " \o Join(Tail(q))
 \* how one cell prints: ints as numbers; for the string-typed arrays the driver stores "" for 0 and "s<v>" otherwise
-Cell(ty, v) == IF ty = "string" THEN (IF v = 0 THEN "" ELSE "s" \o ToString(v)) ELSE ToString(v)
+Cell(ty, v) == CASE ty = "string" -> (IF v = 0 THEN "" ELSE "s" \o ToString(v))
+                 [] ty = "float" -> (IF v = -1000 THEN "-0" ELSE ToString(v))          \* -1000 stands for negative zero
+                 [] ty = "slice" -> (IF v = 0 THEN "[]" ELSE "[" \o ToString(v) \o "]")   \* []int{v}, nil for 0
+                 [] OTHER -> ToString(v)
 RowStr(ty, r) == "[" \o Join([i \in 1..Len(r) |-> Cell(ty, r[i])]) \o "]"
 GridStr(ty, gr) == "[" \o Join([i \in 1..Len(gr) |-> RowStr(ty, gr[i])]) \o "]"
 \* "Set(x,y,v) changes cell (x,y) and no other, Get returns the last value stored there" / Fill / New2DFilled / New2DFromJagged
